@@ -40,11 +40,11 @@ type L234 struct {
 	SrcPort uint16 `json:"sport,omitempty"`
 	DstPort uint16 `json:"dport,omitempty"`
 	// TCP octets 4..11 and 14..19
-	TCPMid     Hex    `json:"tcpmid,omitempty"`  // 8 octets: sequence and acknowledgement numbers
-	DataOffset uint8  `json:"doff,omitempty"`    // 4 bits
-	TCPRes     uint8  `json:"tcpres,omitempty"`  // 3 reserved bits
+	TCPMid     Hex    `json:"tcpmid,omitempty"`   // 8 octets: sequence and acknowledgement numbers
+	DataOffset uint8  `json:"doff,omitempty"`     // 4 bits
+	TCPRes     uint8  `json:"tcpres,omitempty"`   // 3 reserved bits
 	TCPFlags   uint16 `json:"tcpflags,omitempty"` // 9 bits
-	TCPTail    Hex    `json:"tcptail,omitempty"` // 6 octets: window, checksum, urgent
+	TCPTail    Hex    `json:"tcptail,omitempty"`  // 6 octets: window, checksum, urgent
 	// UDP octets 4..7
 	UDPTail Hex `json:"udptail,omitempty"`
 	// ICMP
